@@ -6,10 +6,10 @@ package main
 
 import (
 	"fmt"
-	"regexp"
-	"os"
 	"go/token"
 	"go/types"
+	"os"
+	"regexp"
 	"sort"
 	"strings"
 
@@ -56,6 +56,14 @@ func (c *Ctx) scanObligations(prop string) ([]*Obligation, map[string]interface{
 		ob, cinfo := c.scanCallers(d)
 		out = append(out, ob)
 		info["callers "+d.Callee] = cinfo
+	}
+	for _, d := range c.cf.ErrSources {
+		if d.Prop != prop {
+			continue
+		}
+		ob, einfo := c.scanErrSources(d)
+		out = append(out, ob)
+		info["errorsources "+d.Func] = einfo
 	}
 	for _, d := range c.cf.CycleGuards {
 		if d.Prop != prop {
@@ -282,11 +290,11 @@ func deniedPrimitive(f *ssa.Function) bool {
 }
 
 type effGraph struct {
-	c        *Ctx
-	succ     map[*ssa.Function][]*ssa.Function
-	denied   map[*ssa.Function][]string // direct calls to denied primitives (with position)
-	impls    map[string][]*ssa.Function // interface method dispatch cache
-	cands    []types.Type
+	c      *Ctx
+	succ   map[*ssa.Function][]*ssa.Function
+	denied map[*ssa.Function][]string // direct calls to denied primitives (with position)
+	impls  map[string][]*ssa.Function // interface method dispatch cache
+	cands  []types.Type
 }
 
 func (c *Ctx) inScope(f *ssa.Function) bool {
@@ -640,8 +648,11 @@ func (c *Ctx) scanEffects(prop string) ([]*Obligation, map[string]interface{}) {
 	info["effect graph"] = fmt.Sprintf("%d functions with out-edges, %d edges (static calls, closures, function values, interface dispatch) over package zygo and its non-standard-library dependencies", nf, ne)
 	return out, info
 }
+
 // scanRecover: guard.recover obligations.  Directive (in the contract file):
-//   //@ guard C01 recover SexpFunction.userfun
+//
+//	//@ guard C01 recover SexpFunction.userfun
+//
 // Every dynamic call of a function value loaded from that field must sit in a
 // function whose body defers a closure that calls recover().
 func (c *Ctx) scanRecover(prop string) ([]*Obligation, map[string]interface{}) {
@@ -1233,6 +1244,103 @@ func (c *Ctx) scanGlobalState(d GlobalStateDirective) ([]*Obligation, string) {
 	return out, fmt.Sprintf("%d package-level variables can change after initialisation, all on the accepted list: %v", len(listed), listed)
 }
 
+// scanErrSources: the ways a function can fail are an enumerated, reviewed list.
+// Directive:  //@ errorsources Cxx Func | regexp
+// Every error value Func returns comes (through phis and tuple extracts) from a call, from a
+// package-level error variable or from a constant nil. The calls must be of callees whose bare
+// name matches the regexp: a new refusal (a helper that rejects a form the language accepts)
+// is a new error source and fails until it is reviewed.
+func (c *Ctx) scanErrSources(d ErrSourcesDirective) (*Obligation, string) {
+	ob := &Obligation{Name: "err.sources[" + d.Func + "]", Kind: "err.sources", Fn: d.Func, Props: []string{d.Prop}, Backend: "ssa-scan", Status: "ok"}
+	fn := c.funcs[d.Func]
+	if fn == nil || fn.Blocks == nil {
+		ob.Status, ob.Model = "failed", "no function "+d.Func
+		return ob, ""
+	}
+	re, err := regexp.Compile("^(" + d.Allowed + ")$")
+	if err != nil {
+		ob.Status, ob.Model = "failed", "bad regexp: "+err.Error()
+		return ob, ""
+	}
+	ob.Pos = c.posStr(fn.Pos())
+	res := fn.Signature.Results()
+	ei := -1
+	for i := 0; i < res.Len(); i++ {
+		if types.TypeString(res.At(i).Type(), nil) == "error" {
+			ei = i
+		}
+	}
+	if ei < 0 {
+		ob.Status, ob.Model = "failed", "no error result"
+		return ob, ""
+	}
+	seen := map[ssa.Value]bool{}
+	srcs := map[string]bool{}
+	var bad []string
+	var walk func(v ssa.Value)
+	walk = func(v ssa.Value) {
+		if v == nil || seen[v] {
+			return
+		}
+		seen[v] = true
+		switch x := v.(type) {
+		case *ssa.Const:
+		case *ssa.Phi:
+			for _, e := range x.Edges {
+				walk(e)
+			}
+		case *ssa.Extract:
+			walk(x.Tuple)
+		case *ssa.UnOp:
+			if g, ok := x.X.(*ssa.Global); ok {
+				srcs["var "+g.Name()] = true
+				return
+			}
+			walk(x.X)
+		case *ssa.MakeInterface:
+			walk(x.X)
+		case *ssa.ChangeInterface:
+			walk(x.X)
+		case *ssa.Call:
+			n := calleeBareName(x.Common())
+			srcs[n] = true
+			if !re.MatchString(n) {
+				bad = append(bad, fmt.Sprintf("%s at %s", n, c.posStr(x.Pos())))
+			}
+		case *ssa.Alloc:
+			// a named / address-taken error variable: whatever is stored into it
+			if x.Referrers() != nil {
+				for _, r := range *x.Referrers() {
+					if st, ok := r.(*ssa.Store); ok && st.Addr == x {
+						walk(st.Val)
+					}
+				}
+			}
+		default:
+			bad = append(bad, fmt.Sprintf("error value of unknown origin (%T) at %s", v, c.posStr(v.Pos())))
+		}
+	}
+	for _, b := range fn.Blocks {
+		if len(b.Instrs) == 0 {
+			continue
+		}
+		if r, ok := b.Instrs[len(b.Instrs)-1].(*ssa.Return); ok && ei < len(r.Results) {
+			walk(r.Results[ei])
+		}
+	}
+	var all []string
+	for n := range srcs {
+		all = append(all, n)
+	}
+	sort.Strings(all)
+	if len(bad) > 0 {
+		ob.Status = "failed"
+		sort.Strings(bad)
+		ob.Model = "an error result comes from a callee that is not on the reviewed list of error sources: " + strings.Join(bad, "; ")
+	}
+	return ob, fmt.Sprintf("error sources of %s: %v", d.Func, all)
+}
+
 // scanCycleGuard: recursion over script-made data terminates.
 // Directive:  //@ cycleguard Cxx Method | GuardFn | MarkFn | acyclic impl, ...
 // Every function of the package named Method (an implementation of the traversal, e.g. the
@@ -1392,6 +1500,10 @@ func (c *Ctx) scanCallers(d CallersDirective) (*Obligation, string) {
 					if f := ci.Common().StaticCallee(); f != nil && f.RelString(c.tpkg) == d.Callee {
 						uses = true
 					}
+					// "invoke:Name": every interface call of a method called Name
+					if strings.HasPrefix(d.Callee, "invoke:") && ci.Common().IsInvoke() && ci.Common().Method.Name() == strings.TrimPrefix(d.Callee, "invoke:") {
+						uses = true
+					}
 				}
 				for _, op := range in.Operands(nil) {
 					if op == nil || *op == nil {
@@ -1413,7 +1525,7 @@ func (c *Ctx) scanCallers(d CallersDirective) (*Obligation, string) {
 		}
 	}
 	ob := &Obligation{Name: "call.funnel[" + d.Callee + "]", Kind: "call.funnel", Fn: d.Callee, Props: []string{d.Prop}, Backend: "ssa-scan", Status: "ok"}
-	if _, ok := c.funcs[d.Callee]; !ok {
+	if _, ok := c.funcs[d.Callee]; !ok && !strings.HasPrefix(d.Callee, "invoke:") {
 		ob.Status = "failed"
 		ob.Model = "no function " + d.Callee
 	}
